@@ -7,98 +7,117 @@ ENTRY = {'coq_dir': 'C16',
  'nontrivial_min_trace': 60,
  'rule': 'the REAL `Kademlia::run` loop (polled by hand, tokio time paused) on a real TransportService fed through its event channel, a '
          'real TransportManager handle whose peer table decides the results of dial(), in-memory substream carriers, the real '
-         'KademliaHandle as the user. Stream 1: the 12 corpus witnesses (the five repaired defects F-C16a..e in seven shapes, a silent '
-         'peer ended by the 15 s executor timeout, a connection closed while a request is outstanding, a provider refresh fired by the '
-         "store's timer, the loop parked on a one-slot event channel, five pending peers at once under a zero peer timeout). Stream 2: N "
-         'seeded adaptive histories on 2-7 peers, replication factor in {1,2,3,20}: 1-3 (quick) / 1-5 (thorough) user operations of every '
-         'kind (find_node, put_record, put_record_to_peers incl. unknown / local / duplicate peers, get_record with and without a local '
-         'record, start_providing, get_providers, provider refresh) with quorums One / N(1-4) / All, running concurrently; per peer the '
-         'manager believes no-address / dialable / connected / dialing; the environment answers every dial (established with a live or an '
-         'already dead connection task, or dial failure), every substream (opened or open failure) and every executor future (fitting '
-         'reply with random closer peers / records / providers, wrong message type, undecodable bytes, ADD_PROVIDER as a reply, send '
-         'failure, read failure, PUT_VALUE ack or none, via the carrier or via the 15 s timeout) in random order, interleaved with '
-         "unsolicited connections, closures, dying connection tasks, changes of the manager's belief, inbound requests of every type and "
-         'stale / unknown substream, dial and future events; 88% of the histories end with the environment discharging everything it still '
-         'owes. Of every ten histories: four run against the COMPOSED model (commands are user-level: the seeds, distance ranks, known '
-         'peers of put_record_to_peers and the local-record flag are computed by the model from its own routing table (C14 model, real '
-         'SHA-256 keys of the peers in the case) and store (C17 model); add_known_peer / store_record commands; the dumps of all non-empty '
-         'k-buckets (peer, has-address, connection state, in bucket order) and of the stored record keys are compared after every event), '
-         'two run on an event channel of 1-3 slots (the user receives at random moments; the model is the bounded-channel layer; compared: '
-         'what the user received, whether the loop is parked, the dump when it is not), two run with a zero peer timeout (every pending '
-         "peer of a FIND_NODE-type lookup is stale at the next next_action call; the model's clock ticks before every call). One harness "
-         'event = one `select!` event = one poll of the loop; after each, the emitted KademliaEvents (in order), the send-phase target '
-         'lists and a dump of pending_dials, peers[..].pending_actions, pending_substreams, executor length and every live query (lookup '
-         'sets / tracking context) are compared with the extracted Coq model, which replays the same events with the served-query order '
-         '(and, outside the composed mode, the seed candidates and XOR-distance ranks) observed on the implementation. Stream 3: three '
-         'put_record_to_peers operations between real nodes over loopback TCP (F-C16a end to end, deadline-bounded). prop_ok re-judges the '
-         "property text on the implementation's trace alone: at most one terminal event per operation and none for unknown ids; when the "
-         'environment owes nothing any more (every queued dial answered by a connection or a dial failure, every pending substream '
-         'answered, no future in flight) every started operation has exactly one terminal event; a PutRecordSuccess / AddProviderSuccess '
-         'needs completions of PUT_VALUE / ADD_PROVIDER futures (not FIND_NODE replies) to at least clamp(quorum, |targets|) distinct '
-         'target peers; in composed mode the targets of put_record_to_peers are peers the caller named; on a bounded channel the same is '
-         'judged on what the user received. Non-trivial: trace >= 60 numbers; distinct (case, trace) pairs are counted.',
+         'KademliaHandle as the user. Stream 1: the 17 corpus witnesses (the five repaired defects F-C16a..e in seven shapes; a silent '
+         'peer ended by the 15 s read timeout and a peer that never takes the PUT_VALUE frame ended by the write timeout; a connection '
+         "closed while a request is outstanding; provider refresh fired by the store's timer; two refresh timers for one key, "
+         'stop_providing, timers firing without effect; requests of a remote peer served while user operations are in flight; Manual '
+         'validation of incoming records + store_record; Manual routing-table updates + add_known_peer; the loop parked on a one-slot '
+         'event channel; five pending peers at once under a zero peer timeout). Stream 2: N seeded adaptive histories on 2-7 peers, '
+         'replication factor in {1,2,3,20}: 1-3 (quick) / 1-5 (thorough) user operations of every kind (find_node, put_record, '
+         'put_record_to_peers incl. unknown / local / duplicate peers, get_record with and without a local record, start_providing, '
+         'get_providers, provider refresh) with quorums One / N(1-4) / All, running concurrently; per peer the manager believes no-address '
+         '/ dialable / connected / dialing; the environment answers every dial (established with a live or an already dead connection '
+         'task, or dial failure), every substream (opened or open failure) and plays the SUBSTREAM of every executor future: the write '
+         'side accepts the frame / fails / blocks for ever, the read side delivers a message (fitting reply with random closer peers / '
+         'records / providers, wrong message type, undecodable bytes, ADD_PROVIDER as a reply, PUT_VALUE ack) / ends / stays silent - the '
+         'case records the behaviour, the QueryResult is computed by the executor model (Exec.v) from the kind of the future; a blocking '
+         'or silent substream is resolved by advancing the paused clock 16 s (only with that one future in flight). All in random order, '
+         "interleaved with unsolicited connections, closures, dying connection tasks, changes of the manager's belief, inbound substreams "
+         'with requests of every type, and stale / unknown substream, dial and future events; 88% of the histories end with the '
+         'environment discharging everything it still owes. Of every ten histories: four run against the COMPOSED model (commands are '
+         'user-level: seeds, distance ranks, known peers of put_record_to_peers and the local-record flag are computed by the model from '
+         'its own routing table (C14 model, real SHA-256 keys) and store (C17 model); add_known_peer / store_record / stop_providing '
+         'commands; a request read from an inbound substream is about a record key (FIND_NODE / PUT_VALUE / GET_VALUE / GET_PROVIDERS / '
+         'ADD_PROVIDER) and the reply the node writes - record attached or not, closer peers in order - is captured from the carrier and '
+         "compared with the model's; the store's refresh timers are fired one at a time by advancing the clock to the earliest deadline; "
+         'one composed history in four runs with RoutingTableUpdateMode::Manual, one in four with IncomingRecordValidationMode::Manual; '
+         'compared after every event: the dumps of all non-empty k-buckets (peer, has-address, connection state, in bucket order), the '
+         'stored record keys, the local provider keys and the number of armed refresh timers), two run on an event channel of 1-3 slots '
+         '(the user receives at random moments; compared: what the user received, whether the loop is parked, the dump when it is not), '
+         'two run with a zero peer timeout. One harness event = one `select!` event = one poll of the loop; after each, the emitted '
+         'KademliaEvents (in order), the send-phase target lists and a dump of pending_dials, peers[..].pending_actions, '
+         'pending_substreams, executor length and every live query (lookup sets / tracking context) are compared with the extracted Coq '
+         'model, which replays the same events with the served-query order (and, outside the composed mode, the seed candidates and '
+         'XOR-distance ranks) observed on the implementation. Stream 3: three put_record_to_peers operations between real nodes over '
+         "loopback TCP (F-C16a end to end, deadline-bounded). prop_ok re-judges the property text on the implementation's trace alone: at "
+         'most one terminal event per operation and none for unknown ids (a refresh counts as an operation when the user provides the key: '
+         'start_providing not followed by stop_providing); when the environment owes nothing any more every started operation has exactly '
+         'one terminal event; a PutRecordSuccess / AddProviderSuccess needs PUT_VALUE / ADD_PROVIDER futures whose WRITE side accepted the '
+         'frame, to at least clamp(quorum, |targets|) distinct target peers; bounded time: after the environment has let 16 s pass with a '
+         'future in flight, fewer futures are in flight; in composed mode the targets of put_record_to_peers are peers the caller named; '
+         'on a bounded channel the same is judged on what the user received. Non-trivial: trace >= 60 numbers; distinct (case, trace) '
+         'pairs are counted.',
  'level_text': 'Proof: for every configuration with parallelism factor >= 1 (any replication factor, any peer timeout), every initial '
                'manager belief and EVERY event history (commands, any order in which the drain loop serves the queries, connection / '
-               'substream / dial events, executor completions with arbitrary messages, environment changes, time passing) the model of the '
-               'repaired code keeps the invariant "nobody waits for nothing": each peer a live query waits for (lookup `pending`, '
-               'send-phase `pending_peers`) has an outstanding obligation of that query and of the matching kind in pending_dials, '
-               'pending_actions or the executor - EXACTLY ONE (C16_at_most_one / C16_exactly_one: never two obligations for one (kind, '
-               'query, peer), over the three maps together); every pending action is reachable through pending_substreams; hence when '
-               'nothing is owed and the engine is drained no query is left, and with query ids drawn from a counter every started '
-               'operation has produced exactly one terminal event with its id, never two. Termination no longer assumes the idle / drained '
-               "state: C15's lookup measure is lifted through the glue into a global measure M (C16_step_measure: no event but new work "
-               'raises it, every productive event - a served query with an action, the answer to a queued dial, pending substream or '
-               'future - lowers it), a state in which nothing productive is enabled is idle and drained (C16_stuck_idle), so under a fair '
-               'environment every schedule without new work has at most B = sum over the history of (10 n + 5 k + 2) per command, (5 '
-               '|peers| + 2) per put_record_to_peers, 2 per inbound substream productive events (n peers in the universe, k the '
-               'replication factor; time may pass freely in between) and ends with one terminal event per operation (C16_fair_terminates). '
-               'Quorum honesty at full strength: PutRecordSuccess / AddProviderSuccess only after completed sends of SEND-PHASE futures '
-               '(PUT_VALUE / ADD_PROVIDER) to at least clamp(quorum, |targets|) distinct TARGET peers; a late FIND_NODE reply cannot count '
-               '(the statement does not hold for the model of seeded regression b). Await points on a full event channel '
-               '(C16_bounded_channel / C16_channel_drains): with a channel of any capacity nothing is lost, duplicated or reordered, the '
-               'loop is parked only while the channel is full, and the user can always drain it. Connection closure during a request '
-               '(C16_closed_while_outstanding), provider refresh (a command of the model like start_providing) and peer-timeout staleness '
-               '(clock and tick event in the model; all theorems hold for every timeout and every passage of time) are inside the model. '
-               'The COMPOSITION with the routing table (C14 model) and the store (C17 model) is a theorem layer: the composed run is a run '
-               "of the glue model on computed commands (C16_compose_refines); everything the event loop does to the table preserves C14's "
-               'invariant (C16_table_invariant); every lookup is seeded with RoutingTable::closest of the current table, never with the '
-               "local peer, and outside finding F-C14a's class the seeds are the k closest addressed entries, sorted, without duplicates "
-               '(C16_seeds_from_table); put_record_to_peers targets named peers only (C16_put_to_peers_named, after the repair of F-C16e); '
-               'GetRecord with a live local record and Quorum::One answers FoundRecord + GetRecordSuccess at once without a query, '
-               'otherwise the lookup counts the local record as found (C16_get_record_local), and a record this node stored is found by '
-               'every later GetRecord (C16_put_then_get); the side conditions of the glue theorems (fresh ids, well-formed commands) hold '
-               'by construction for composed histories (C16_compose_cmds_ok) and the theorems are restated for them (C16_compose_no_wait / '
-               '_terminates / _at_most_one / _quorum_honest). The lookups inside the engine are the C15 model (each engine call is one C15 '
-               'step).',
- 'level_note': 'Liveness is relative to the environment discharging its obligations (dial -> Established | DialFailure, open -> Opened | '
-               'OpenFailure, executor futures complete within the 15 s read/write timeouts) - these are C05 / C08 / tokio guarantees taken '
-               'as given; the bound B counts events, "bounded time" is B times those timeouts and is not measured. The fair-termination '
-               'theorem is stated for the glue model (peer universe U given); it is not restated for composed histories (the universe '
-               'would be the key table plus the peers named in replies). In the composed model records carry one logical ttl and the store '
-               "clock stands still (record expiry is C17's subject); provider records of the store (get_providers' known providers, "
-               'add_provider side) stay inputs; the routing table is updated in the automatic mode only. The harness exercises staleness '
-               'at the two extremes (timeout unreachable / zero), the theorems cover every timeout. Full buckets are reached by the F-C16e '
-               'witness only (the generator uses 10 peers).',
+               'substream / dial events, executor completions with arbitrary messages, requests of remote peers, environment changes, time '
+               'passing) the model of the repaired code keeps the invariant "nobody waits for nothing": each peer a live query waits for '
+               'has EXACTLY ONE outstanding obligation of that query and of the matching kind in pending_dials, pending_actions or the '
+               'executor (C16_no_wait_for_nothing / _at_most_one / _exactly_one); every pending action is reachable through '
+               'pending_substreams; when nothing is owed and the engine is drained no query is left, and with ids from a counter every '
+               'started operation has produced exactly one terminal event with its id, never two (C16_one_terminal / _terminates). '
+               "Termination with an explicit bound: C15's lookup measure lifted to a global measure M (C16_step_measure), a stuck state is "
+               'idle and drained (C16_stuck_idle), every fair schedule without new work has at most B = sum of (10 n + 5 k + 2) per '
+               'command, (5 |peers| + 2) per put_record_to_peers, 2 per inbound substream productive events and ends with one terminal '
+               'event per operation (C16_fair_terminates). BOUNDED TIME (new): obligations carry their time of birth; in a schedule where '
+               'the clock never passes D beyond the birth of an outstanding obligation and time passes only while the loop waits, the '
+               'event after k productive ones happens at most D (k + 1) after the start, hence every terminal event within D * B '
+               "(C16_bounded_time / _bounded_time_budget); for the executor's futures D is not an assumption: the five kinds of futures "
+               'are modelled with their write / read phases and timers against every behaviour of the substream (Exec.v) - the result is '
+               "always one the loop's model accepts and every accepted result occurs (C16_executor_sound / _complete), no future lives "
+               'longer than WRITE_TIMEOUT + READ_TIMEOUT (C16_executor_bounded), a silent peer ends in the failure path exactly '
+               'READ_TIMEOUT after the write (C16_executor_silent_peer), and a send-phase completion counts as sent exactly when the frame '
+               'was written (C16_executor_sent). Quorum honesty at full strength (C16_quorum_honest). Await points on a full event channel '
+               '(C16_bounded_channel / _channel_drains). Requests of remote peers served by the same loop (new): inbound traffic neither '
+               'starts, ends nor touches a user operation - engine, pending_dials, pending_substreams, every pending action and every '
+               'query future are unchanged, only IncomingRecord / IncomingProvider are emitted (C16_inbound_isolated; a FAILED inbound '
+               'future runs disconnect_peer like any other and is covered by the general theorems). The COMPOSITION with the routing table '
+               "(C14 model) and the store (C17 model): refinement (C16_compose_refines), C14's table invariant under everything the loop "
+               "does, disconnect_peer being C14's ODisconnected operation (C16_table_invariant), seeds = RoutingTable::closest "
+               '(C16_seeds_from_table), put_record_to_peers targets named peers only (C16_put_to_peers_named), GetRecord and the local '
+               'store (C16_get_record_local / _put_then_get); the reply to an inbound FIND_NODE / GET_VALUE / GET_PROVIDERS is closest() '
+               'of the current table - never the local peer, at most k - with the record exactly when the store has it, and a stored '
+               'record is served to every later GET_VALUE (C16_inbound_reply / _serve_after_put); IncomingRecordValidationMode::Manual: no '
+               'event of the loop writes the store, Automatic: the record is stored when the request is read (C16_manual_validation / '
+               '_auto_validation); RoutingTableUpdateMode::Manual: after every history every peer in the table was put there by '
+               "add_known_peer (C16_manual_routing_table); the store's refresh timers: a firing timer starts a refresh exactly when the "
+               "last start_providing of the key has not been followed by stop_providing, with that call's quorum, and re-arms; a provided "
+               'key always has a timer (C16_refresh_due / _provided_has_timer); side conditions hold by construction and the glue theorems '
+               'are restated for composed histories incl. fair termination over the key table as peer universe (C16_compose_cmds_ok / '
+               '_no_wait / _one_terminal / _terminates / _fair_terminates / _at_most_one / _quorum_honest). The lookups inside the engine '
+               'are the C15 model.',
+ 'level_note': 'Liveness is relative to the environment discharging its obligations: dial -> Established | DialFailure and open -> Opened '
+               "| OpenFailure are C05 / C08 guarantees taken as given (the D of C16_bounded_time for them is the transport layer's); for "
+               'executor futures the bound is proved on the executor model and exercised with the paused clock. There is no query '
+               'cancellation API in the crate. In the composed model records carry one logical ttl and the store clock stands still '
+               "(record expiry is C17's subject); provider RECORDS of the store (known providers handed to get_providers, the add_provider "
+               "side of an inbound ADD_PROVIDER, GET_PROVIDERS replies' provider lists) stay inputs / unmodelled - only the local-provider "
+               'bookkeeping (keys, quorums, timers) is modelled, assuming put_provider accepts the local provider (capacity of 10000 '
+               'provider keys is not reached). Refresh timers are a multiset without deadlines: which armed timer fires next is an input. '
+               'The harness exercises staleness at the two extremes (timeout unreachable / zero), the theorems cover every timeout. Full '
+               'buckets are reached by the F-C16e witness only (the generator uses 10 peers).',
  'trusted_base': ['the cfg(verif) probe inside `Kademlia::run` (two add-only statements: one log entry per engine action, one snapshot '
-                  'when the loop is about to wait; the snapshot reads the glue maps, the engine, the k-buckets and the store keys) and the '
-                  'public wrapper around the crate-private Kademlia object',
+                  'when the loop is about to wait; the snapshot reads the glue maps, the engine, the k-buckets, the store keys, the local '
+                  'provider keys and the number of armed refresh timers) and the public wrapper around the crate-private Kademlia object',
                   'HashMap iteration order of the engine enters the model as an input recorded from the implementation (served-query '
                   'events); outside the composed mode so do routing-table answers and SHA-256 distance ranks (seeds, dists). The model '
                   'validates every served query (it must have an action) and that the engine is drained before each select! event. In '
-                  "composed mode the peers' SHA-256 keys are data of the case (computed by the crate's Key::from)",
+                  "composed mode the peers' and record keys' SHA-256 hashes are data of the case (computed by the crate's Key::from / "
+                  'Key::new)',
                   'dial() results are forced through the real TransportManagerHandle peer table (verif_force_peer), open_substream results '
-                  'through the real connection handle (dropped receiver); carriers are in-memory AsyncRead/AsyncWrite objects',
-                  'tokio paused clock for the executor timeouts (advance 16 s with exactly one future in flight) and the refresh timer; '
+                  'through the real connection handle (dropped receiver); carriers are in-memory AsyncRead/AsyncWrite objects (write '
+                  'accepted / failing / blocking, or taken-but-not-flushed so that a reply can be read before its future completes)',
+                  'tokio paused clock for the executor timeouts (advance 16 s with exactly one future in flight and no refresh timer due) '
+                  'and the refresh timers (advance to the earliest deadline; deadlines are kept >= 3 ms apart); '
                   'ConfigBuilder::verif_build_bounded for an event channel of 1-3 slots; QueryEngine::verif_force_peer_timeout(0) for the '
-                  'staleness stream (std::time::Instant cannot be paused: zero timeout = stale at the next call)'],
+                  'staleness stream (std::time::Instant cannot be paused)'],
  'assumptions': ['parallelism factor >= 1 (shipped: 3)',
-                 'query ids are fresh per command (KademliaHandle draws them from an atomic counter)',
+                 'query ids are fresh per command (KademliaHandle and the refresh handler draw them from one atomic counter)',
                  'the routing table never returns the local peer and put_record_to_peers is not given one peer twice (`cmd_ok`; a THEOREM '
                  'for composed histories: C16_compose_cmds_ok needs only that the caller names no peer twice)',
                  'the service reports SubstreamOpened for the peer the substream was requested from (C08)',
                  'every obligation is eventually discharged by the environment: a queued dial by ConnectionEstablished or DialFailure '
-                 '(C05; see F-C05c for a manager path that stays silent), an open by Opened/OpenFailure, executor futures by their 15 s '
-                 'timeouts',
+                 '(C05; see F-C05c for a manager path that stays silent), an open by Opened/OpenFailure (C08); executor futures by their '
+                 'own timers (proved: C16_executor_bounded)',
                  'composed model: every peer label has one 256-bit key and distinct peers have distinct keys (`keys_ok`; SHA-256 '
                  'collisions aside)',
                  "inbound substream ids are distinct from the service's substream counter (harness numbering)"]}
